@@ -116,6 +116,12 @@ def run(ctx):
                         "app_id" not in usage.tables[st.table].colnames():
                     ok = True
                     why = "usage table without an app column (server-wide status)"
+                elif e["db"] == "usage" and st.table not in ("nameplates", "mailboxes",
+                                                             "client_versions"):
+                    # a status table the server rewrites as a whole (operator
+                    # statistics): not one of the per-app usage records
+                    ok = True
+                    why = "status table rewritten by the server, not a usage record table"
                 elif e["db"] == "chan" and st.kind == "select" and not st.mutating and \
                         e["site"][:2] not in _visible_results(model):
                     ok = True
